@@ -198,6 +198,8 @@ fn edge_cases(rng: &mut Rng) {
     let sp = space(xs, ys);
     let (fv, gv) = (f.clone(), g.clone());
     let single = guarded(move || hom_rate(sp, &fv, &gv, tau * S, norm));
+    let (fv, gv) = (f.clone(), g.clone());
+    let single0 = guarded(move || hom_rate(sp, &fv, &gv, 0.0 * S, norm));
     let (fv, gv, tv) = (f.clone(), g.clone(), taus.clone());
     let series = guarded(move || hom_rate_series(sp, &fv, &gv, tv.iter().map(|t| *t * S)));
     emit(json!({
@@ -205,7 +207,7 @@ fn edge_cases(rng: &mut Rng) {
       "fre": fxs(&f.iter().map(|z| z.re).collect::<Vec<_>>()), "fim": fxs(&f.iter().map(|z| z.im).collect::<Vec<_>>()),
       "gre": fxs(&g.iter().map(|z| z.re).collect::<Vec<_>>()), "gim": fxs(&g.iter().map(|z| z.im).collect::<Vec<_>>()),
       "tau": fx(tau), "norm": norm.map(fx), "taus": fxs(&taus),
-      "single": res(single),
+      "single": res(single), "single0": res(single0),
       "series": match series { Ok(v) => json!(fxs(&v)), Err(p) => json!({"panic": p}) },
     }));
   };
@@ -354,6 +356,16 @@ fn setup_cases(rng: &mut Rng, ncases: usize) {
     let range = space(xs, ys);
     let integrator = Integrator::default();
     let dt = *(hom_time_delay(&spdc) / S);
+    // the same delay from its parts: group indices, propagation directions, crystal length, waist positions
+    let dt_indep = {
+      let c = 299_792_458.0;
+      let half = 0.5 * *(spdc.crystal_setup.length / M);
+      let ng_s = *spdc.signal.group_index(&spdc.crystal_setup, &spdc.pp);
+      let ng_i = *spdc.idler.group_index(&spdc.crystal_setup, &spdc.pp);
+      let (ds, di) = (spdc.signal.direction().into_inner(), spdc.idler.direction().into_inner());
+      let path = |d: spdcalc::na::Vector3<f64>| (half / d.z) * d.norm();
+      path(di) * ng_i / c - path(ds) * ng_s / c + (*(spdc.idler_waist_position / M) - *(spdc.signal_waist_position / M)) / c
+    };
     let span = rng.log_range(0.3, 3.0) * std::f64::consts::PI / d;
     let taus: Vec<f64> = vec![0.0, dt, dt + rng.range(-1.0, 1.0) * span, dt + rng.range(-1.0, 1.0) * span, rng.range(-1.0, 1.0) * span];
     // setup-level calls
@@ -385,7 +397,7 @@ fn setup_cases(rng: &mut Rng, ncases: usize) {
     };
     emit(json!({
       "kind": "setup", "setup": name, "n": n, "symmetric": symmetric,
-      "xs": [fx(xs.0), fx(xs.1)], "ys": [fx(ys.0), fx(ys.1)], "taus": fxs(&taus), "dt": fx(dt),
+      "xs": [fx(xs.0), fx(xs.1)], "ys": [fx(ys.0), fx(ys.1)], "taus": fxs(&taus), "dt": fx(dt), "dt_indep": fx(dt_indep),
       "series_setup": ser(series_setup), "series_swapped": ser(series_swapped), "series_transposed": ser(series_transposed),
       "vis_setup": match vis_setup { Ok((t, v)) => json!([fx(*(t / S)), fx(v)]), Err(p) => json!({"panic": p}) },
       "rate_dt_array": res(rate_dt), "swapped_is_transpose": same, "jsi_norm": fx(jsi_norm(&f)), "arrays": arrays,
